@@ -36,6 +36,7 @@ let () =
         | "startwrite" :: _ -> Some (OStartWrite (zi 1, zi 2, zi 3, zi 4, zi 5))
         | "startaccess" :: _ -> Some (OStartAccess (zi 1, zi 2, zi 3, zi 4, zi 5))
         | "hlcreate" :: _ -> Some (OHLcreate (zi 1, zi 2, zi 3, zi 4, zi 5, zi 6))
+        | "hxcreate" :: _ -> Some (OHXcreate (zi 1, zi 2, zi 3, zi 4, zi 7))
         | "appendable" :: _ -> Some (OAppendable (zi 1))
         | "write" :: _ -> Some (OWrite (zi 1, unhex (List.nth toks 2)))
         | "read" :: _ -> Some (ORead (zi 1, zi 2))
